@@ -30,8 +30,9 @@ fn copy(a: &D) -> D { D { bound: a.bound.clone(), eval: a.eval, depth: a.depth, 
 
 /// arbitrary table of n slots under the invariant: a filled slot i holds a key with key % n == i;
 /// `occupied` equals the number of filled slots
-fn any_table(n: usize) -> (T, [Option<(u64, D)>; 3]) {
-    let mut shadow: [Option<(u64, D)>; 3] = [None, None, None];
+pub const MAXN: usize = 5;
+fn any_table(n: usize) -> (T, [Option<(u64, D)>; MAXN]) {
+    let mut shadow: [Option<(u64, D)>; MAXN] = [None, None, None, None, None];
     let mut data: Vec<Option<E>> = Vec::with_capacity(n);
     let mut occ = 0usize;
     let mut i = 0;
@@ -77,7 +78,7 @@ fn spec_replaces(old: &D, new: &D) -> Option<bool> {
     None
 }
 
-fn step_get(n: usize) {
+pub fn step_get(n: usize) {
     let (tt, shadow) = any_table(n);
     let key: u64 = kani::any();
     #[cfg(test)] println!("REPLAY-CASE {{\"op\":\"get\",\"n\":{},\"key\":{}}}", n, key);
@@ -92,7 +93,7 @@ fn step_get(n: usize) {
     std::mem::forget(tt);
 }
 
-fn step_insert(n: usize) {
+pub fn step_insert(n: usize) {
     let (mut tt, shadow) = any_table(n);
     let pre_occ = tt.occupied;
     let key: u64 = kani::any();
@@ -138,7 +139,7 @@ fn step_insert(n: usize) {
     std::mem::forget(tt);
 }
 
-fn step_misc(n: usize) {
+pub fn step_misc(n: usize) {
     let (mut tt, _shadow) = any_table(n);
     #[cfg(test)] println!("REPLAY-CASE {{\"op\":\"misc\",\"n\":{},\"occupied\":{},\"generation\":{}}}", n, tt.occupied, tt.generation);
     // fill indicator = fraction of occupied slots, in permille, rounded down
@@ -158,7 +159,7 @@ fn step_misc(n: usize) {
     std::mem::forget(tt);
 }
 
-macro_rules! inst { ($f:ident, $($name:ident $n:literal),*) => { $( #[kani::proof] #[kani::unwind(5)] pub fn $name() { $f($n); } )* }; }
+macro_rules! inst { ($f:ident, $($name:ident $n:literal),*) => { $( #[kani::proof] #[kani::unwind(7)] pub fn $name() { $f($n); } )* }; }
 inst!(step_get, c19_get_n1 1, c19_get_n2 2, c19_get_n3 3);
 inst!(step_insert, c19_insert_n1 1, c19_insert_n2 2, c19_insert_n3 3);
 inst!(step_misc, c19_misc_n1 1, c19_misc_n2 2, c19_misc_n3 3);
